@@ -290,7 +290,7 @@ func c18Scenario(use string, dotu bool, part, parts int) Scenario {
 							rpc(&wire.Msg{Type: wire.Tclunk, Fid: 21})
 						}
 					}
-				case "create", "mkdir", "symlink", "link":
+				case "create", "mkdir", "symlink", "link", "mkfifo", "mknod", "mksock":
 					attach("")
 					for si, st := range starts {
 						base := uint32(10 + si)
@@ -306,6 +306,12 @@ func c18Scenario(use string, dotu bool, part, parts int) Scenario {
 						case "link":
 							rpc(twalk(0, 0, 30, "x"))
 							perm, ext = go9p.DMLINK|0644, "30"
+						case "mkfifo":
+							perm = go9p.DMNAMEDPIPE | 0644
+						case "mknod":
+							perm, ext = go9p.DMDEVICE|0644, "c 1 3"
+						case "mksock":
+							perm = go9p.DMSOCKET | 0644
 						}
 						mode := uint8(1)
 						if use != "create" {
@@ -313,7 +319,9 @@ func c18Scenario(use string, dotu bool, part, parts int) Scenario {
 						}
 						if r := rpc(&wire.Msg{Type: wire.Tcreate, Fid: base, Name: hostile, Perm: perm, Mode: mode, Ext: ext}); r != nil && r.Type == wire.Rcreate {
 							rpc(&wire.Msg{Type: wire.Tstat, Fid: base})
+							rpc(&wire.Msg{Type: wire.Tread, Fid: base, Offset: 0, Count: 4096})
 							rpc(&wire.Msg{Type: wire.Twrite, Fid: base, Offset: 0, Data: []byte("written through a created fid")})
+							access(base)
 						}
 						if use == "link" {
 							rpc(&wire.Msg{Type: wire.Tclunk, Fid: 30})
@@ -394,6 +402,10 @@ func c18Scenarios(tier string) []Scenario {
 	}
 	for p := 0; p < parts; p++ {
 		out = append(out, c18Scenario("symlink", true, p, parts), c18Scenario("link", true, p, parts))
+		out = append(out, c18Scenario("mkfifo", true, p, parts))
+		if tier == "thorough" || p == 0 {
+			out = append(out, c18Scenario("mknod", true, p, parts), c18Scenario("mksock", true, p, parts))
+		}
 	}
 	return out
 }
@@ -402,7 +414,7 @@ func init() {
 	_ = vs.Active
 	register(&Property{ID: "C18", Level: "exploration",
 		Technique: "bounded-exhaustive enumeration of hostile names in every position, executed on the real Ufs over a scratch export with canaries outside",
-		Rule:      "names = every sequence of <= 3 components over {'..', '.', '', 'x' (file), 'd' (directory), 'nope'} joined by '/', with and without leading and trailing '/', plus 4- and 5-level '..' chains and 11 absolute host paths (the export, its spelling as a prefix of a sibling file and of a sibling directory (absolute and through '..'), its parent and neighbours, '/etc', '/') (about 1000 names), used as attach name, single walk element and element list (<= 4, plus two more '..') from the root and from depth 1 and 2, create name for files, directories, symlinks and hard links, and wstat rename target (the renamed fid is then used like any other); every resulting fid is then stat'ed, walked towards the canaries, listed/read, written, created in, wstat'ed and removed. Oracle: nothing outside the export changes (names, contents, modes, mtimes), no reply carries a qid or data of an outside object, '..' at the root is the root. non-trivial = names x uses executed",
+		Rule:      "names = every sequence of <= 3 components over {'..', '.', '', 'x' (file), 'd' (directory), 'nope'} joined by '/', with and without leading and trailing '/', plus 4- and 5-level '..' chains and 11 absolute host paths (the export, its spelling as a prefix of a sibling file and of a sibling directory (absolute and through '..'), its parent and neighbours, '/etc', '/') (about 1000 names), used as attach name, single walk element and element list (<= 4, plus two more '..') from the root and from depth 1 and 2, create name for files, directories, symlinks, hard links, named pipes, devices and sockets (the created fid is then read and used like any other), and wstat rename target (the renamed fid is then used like any other); every resulting fid is then stat'ed, walked towards the canaries, listed/read, written, created in, wstat'ed and removed. Oracle: nothing outside the export changes (names, contents, modes, mtimes), no reply carries a qid or data of an outside object, '..' at the root is the root. non-trivial = names x uses executed",
 		Assumptions: []string{"the export is nested 12 levels below the scratch base, deeper than any generated '..' chain (the checks run as root on the real file system)", "the exported tree contains no symlink leaving it (the property's premise); symlink targets supplied by the client are not followed by the check"},
 		Scenarios:   c18Scenarios, QuickS: 110, ThoroughS: 900})
 }
